@@ -56,10 +56,10 @@ Proof.
     + apply prefix_end_opt_app_some. unfold slash; lia.
 Qed.
 
-Lemma c10_oracle_sound c : c10_valid c -> c10_check c = true -> c10_oracle c = None.
+Lemma c10_oracle_sound_raw c : c10_valid c -> c10_check_raw c = true -> c10_oracle c = None.
 Proof.
   destruct c as [k r out|ik out|k r out|k1 r1 k2 r2 z|p out|b out|r out|p k r inside|a b k r inside|cfg lo hi k r inside];
-    cbn [c10_valid c10_check c10_oracle]; intros V C; try reflexivity.
+    cbn [c10_valid c10_check_raw c10_oracle]; intros V C; try reflexivity.
   - rewrite decode_encode in C by exact V. apply dec_eqb_eq in C. subst out.
     cbn [dec_eqb]. rewrite beqb_refl, N.eqb_refl. reflexivity.
   - destruct (alphab k1) eqn:A1; [|reflexivity]. destruct (alphab k2) eqn:A2; [|reflexivity].
@@ -96,4 +96,24 @@ Proof.
     + rewrite Bool.eqb_reflx. reflexivity.
     + apply bool_eq_iff. rewrite in_bounds_spec. symmetry.
       apply prefix_bounds; [apply with_slash_alpha; exact Ac|exact Ak|exact V|exact E].
+Qed.
+
+Lemma c10_validb_sound c : c10_validb c = true -> c10_valid c.
+Proof.
+  destruct c; cbn [c10_validb c10_valid]; intros H; try exact I;
+    try (apply N.ltb_lt; exact H).
+  apply andb_true_iff in H as [H1 H2]. split; apply N.ltb_lt; assumption.
+Qed.
+
+Lemma c10_oracle_sound c : c10_valid c -> c10_check c = true -> c10_oracle c = None.
+Proof.
+  intros V C. unfold c10_check in C. apply andb_true_iff in C as [_ C].
+  apply c10_oracle_sound_raw; assumption.
+Qed.
+
+(* no side condition: the check evaluates validity itself *)
+Lemma c10_oracle_sound_checked c : c10_check c = true -> c10_oracle c = None.
+Proof.
+  intros C. apply c10_oracle_sound; [|exact C].
+  unfold c10_check in C. apply andb_true_iff in C as [V _]. apply c10_validb_sound; exact V.
 Qed.
